@@ -4,6 +4,7 @@
   i.e. all schedules of any number of callers, any reply order.
 -/
 import G9.Clnt
+import G9Proofs.Lemmas.ReqList
 namespace G9.C09
 open G9 G9.Clnt
 
@@ -190,6 +191,157 @@ theorem shared_tag_replies_in_issue_order (s : CS) (t p i : Nat) (before after :
     rw [h1]
     simp [hi]
   simp [CS.step, hc, hfind]
+
+/-! ### the pending list as the code keeps it (G9.ReqList): pointer operations refine the list -/
+
+section reqlist
+open G9.ReqList
+
+/-- what a `Req` object goes through: appended by Rpcnb, unlinked by recv (a reply, or the error
+    fan-out), its links cleared by ReqFree before it is used again -/
+inductive LOp where
+  | app (r : Nat)
+  | unl (r : Nat)
+  | free (r : Nat)
+  deriving Repr, DecidableEq
+
+/-- concrete and abstract state side by side: the linked structure, the list it is meant to be,
+    and the requests that are unlinked but not yet cleared -/
+structure LSt where
+  rl : RL := {}
+  abs : List Nat := []
+  dirty : List Nat := []
+
+/-- the discipline of clnt_clnt.go: only a cleared request is appended, only a listed one is
+    unlinked, only an unlinked one is cleared -/
+def LSt.step (s : LSt) : LOp → Option LSt
+  | .app r => if r ∈ s.abs ∨ r ∈ s.dirty then none else some { s with rl := s.rl.append r, abs := s.abs ++ [r] }
+  | .unl r => if r ∈ s.abs then some { rl := s.rl.unlink r, abs := s.abs.erase r, dirty := r :: s.dirty } else none
+  | .free r => if r ∈ s.dirty then some { s with rl := s.rl.free r, dirty := s.dirty.filter (· ≠ r) } else none
+
+def LSt.run (s : LSt) : List LOp → Option LSt
+  | [] => some s
+  | o :: os => (s.step o).bind (fun s' => s'.run os)
+
+structure LInv (s : LSt) : Prop where
+  repr : Rep s.rl s.abs
+  clean : ∀ r, r ∉ s.abs → r ∉ s.dirty → s.rl.next r = none
+  apart : ∀ r, r ∈ s.dirty → r ∉ s.abs
+
+theorem linv_init : LInv {} :=
+  ⟨⟨by simp, rfl, rfl, trivial⟩, fun _ _ _ => rfl, by intro r hr; simp at hr⟩
+
+theorem linv_step (s s' : LSt) (o : LOp) (h : LInv s) (hs : s.step o = some s') : LInv s' := by
+  cases o with
+  | app r =>
+    simp only [LSt.step] at hs
+    split at hs
+    · simp at hs
+    · rename_i hn
+      have hra : r ∉ s.abs := fun hm => hn (Or.inl hm)
+      have hrd : r ∉ s.dirty := fun hm => hn (Or.inr hm)
+      have := (Option.some.inj hs).symm; subst this
+      refine ⟨append_repr s.rl s.abs r h.repr hra (h.clean r hra hrd), ?_, ?_⟩
+      · intro x hx hxd
+        have hxa : x ∉ s.abs := fun hm => hx (List.mem_append_left _ hm)
+        have hxr : x ≠ r := fun e => hx (by simp [e])
+        show (s.rl.append r).next x = none
+        have hc := h.clean x hxa hxd
+        unfold RL.append
+        cases hl : s.rl.last with
+        | none => simpa using hc
+        | some lst =>
+          have hlin : lst ∈ s.abs := List.mem_of_getLast? (by rw [← h.repr.last, hl])
+          have : x ≠ lst := fun e => hxa (e ▸ hlin)
+          simpa [this] using hc
+      · intro x hx hm
+        rcases List.mem_append.1 hm with hm | hm
+        · exact h.apart x hx hm
+        · have : x = r := by simpa using hm
+          exact hrd (this ▸ hx)
+  | unl r =>
+    simp only [LSt.step] at hs
+    split at hs
+    · rename_i hr
+      have := (Option.some.inj hs).symm; subst this
+      refine ⟨unlink_repr s.rl s.abs r h.repr hr, ?_, ?_⟩
+      · intro x hx hxd
+        have hxr : x ≠ r := fun e => hxd (by simp [e])
+        have hxd' : x ∉ s.dirty := fun hm => hxd (List.mem_cons_of_mem _ hm)
+        have hxa : x ∉ s.abs := fun hm => hx ((List.mem_erase_of_ne hxr).2 hm)
+        have hc := h.clean x hxa hxd'
+        show (s.rl.unlink r).next x = none
+        -- unlink writes `next` only at the predecessor of r, a member of the list
+        unfold RL.unlink
+        cases hp : s.rl.prev r with
+        | none => cases hn : s.rl.next r <;> simpa using hc
+        | some p' =>
+          obtain ⟨pre, post, hl⟩ := List.append_of_mem hr
+          have hsp := (repr_split s.rl pre post r (hl ▸ h.repr)).1
+          have hpin : p' ∈ s.abs := by
+            rw [hl]; apply List.mem_append_left
+            exact List.mem_of_getLast? (by rw [← hsp, hp])
+          have : x ≠ p' := fun e => hxa (e ▸ hpin)
+          cases hn : s.rl.next r <;> simpa [this] using hc
+      · intro x hx hm
+        have hxa : x ∈ s.abs := List.mem_of_mem_erase hm
+        rcases List.mem_cons.1 hx with hx | hx
+        · subst hx; exact (List.Nodup.mem_erase_iff h.repr.nodup).1 hm |>.1 rfl
+        · exact h.apart x hx hxa
+    · simp at hs
+  | free r =>
+    simp only [LSt.step] at hs
+    split at hs
+    · rename_i hr
+      have := (Option.some.inj hs).symm; subst this
+      have hra := h.apart r hr
+      obtain ⟨h1, h2⟩ := free_repr s.rl s.abs r h.repr hra
+      refine ⟨h1, ?_, ?_⟩
+      · intro x hx hxd
+        by_cases hxr : x = r
+        · subst hxr; exact h2
+        · have hxd' : x ∉ s.dirty := fun hm => hxd (List.mem_filter.2 ⟨hm, by simpa using hxr⟩)
+          have := h.clean x hx hxd'
+          simpa [RL.free, hxr] using this
+      · intro x hx; exact h.apart x (List.mem_filter.1 hx).1
+    · simp at hs
+
+theorem linv_run (os : List LOp) (s s' : LSt) (h : LInv s) (hr : s.run os = some s') : LInv s' := by
+  induction os generalizing s with
+  | nil => simp [LSt.run] at hr; subst hr; exact h
+  | cons o os ih =>
+    simp only [LSt.run] at hr
+    cases hst : s.step o with
+    | none => rw [hst] at hr; simp at hr
+    | some s1 => rw [hst] at hr; exact ih s1 (linv_step s s1 o h hst) (by simpa using hr)
+
+/-- Whatever the history of calls — any number of them, requests recycled any number of times,
+    replies in any order — the linked structure `reqfirst`/`next`/`prev`/`reqlast` is exactly the
+    list G9.Clnt speaks of: walking `next` from `reqfirst` (the tag search of recv, the error
+    fan-out) visits the pending requests, each once, in the order they were queued. -/
+theorem pending_list_is_the_list (os : List LOp) (s : LSt) (h : ({} : LSt).run os = some s) :
+    s.rl.walk (s.abs.length + 1) s.rl.first = s.abs ∧ s.abs.Nodup := by
+  have inv := linv_run os _ s linv_init h
+  refine ⟨?_, inv.repr.nodup⟩
+  rw [inv.repr.first]
+  exact walk_chain s.rl s.abs none _ inv.repr.chain (by omega)
+
+/-- the `ReqFree` of seeded change C09-7: the links are left as they are -/
+def stepStale (s : LSt) : LOp → Option LSt
+  | .free r => if r ∈ s.dirty then some { s with dirty := s.dirty.filter (· ≠ r) } else none
+  | o => s.step o
+
+/-- Witness that clearing the links in `ReqFree` carries the refinement: without it, two
+    overlapping calls answered in order and one more call on the recycled request leave a list
+    whose walk finds a request that is no longer pending. -/
+theorem stale_links_corrupt_the_list :
+    ([LOp.app 1, .app 2, .unl 1, .free 1, .unl 2, .free 2, .app 1].foldl (fun o e => o.bind (fun s => stepStale s e)) (some {})).map
+      (fun s => (s.abs, s.rl.walk 5 s.rl.first)) = some ([1], [1, 2]) := by decide
+
+example : (({} : LSt).run [.app 1, .app 2, .app 3, .unl 2, .free 2, .app 2, .unl 1]).map (fun s => (s.abs, s.rl.walk 9 s.rl.first)) =
+    some ([3, 2], [3, 2]) := by decide
+
+end reqlist
 
 /-! non-vacuity: callers 1 and 3 share tag 7 (a Tag), caller 2 has a pooled tag in between -/
 def exTag : CS :=
